@@ -454,7 +454,7 @@ class _Gen:
                           (3, 'act_heredoc_looking')]
             return _w(self.draw, pairs)
         # (the first alternatives are what degenerate draws produce: keep them useful)
-        pairs = [(60, 'one'), (52, 'hdr'), (36 if self.mode == 'api' else 64, 'include'), (24, 'heredoc'),
+        pairs = [(60, 'one'), (52, 'hdr'), (50 if self.mode == 'api' else 64, 'include'), (24, 'heredoc'),
                  (28, 'desc'), (12, 'paren'), (8, 'cont'), (16, 'comment'), (20, 'blank')]
         if self.mode == 'api':
             pairs += [(2, 'hdr_unknown'), (2, 'hdr_malformed'), (1, 'include_arity'), (5, 'incomplete'),
@@ -538,6 +538,7 @@ class _Gen:
                     ['stderr equals <<EOF', T, '[setup]', '', '# c', 'EOF'],
                     ['exit-code == %d ||' % other, ' == %d' % ((c + 2) % 256)],
                     ['stdout ( equals <<EOF', T, 'EOF', ' || ! is-empty )'],
+                    ['dir-contents . : matches {', '  no-such-file-%s : type file' % T, '', '  b : type dir', '}'],
                 ]), 'FAIL'
         else:
             desc_ok = True
@@ -554,6 +555,9 @@ class _Gen:
                     (['def list %s = a \\' % T, ' @[UNDEFINED_SYMBOL]@'], 'VALIDATION_ERROR'),
                     (['def text-matcher %s = (' % T, ' is-empty', ' ||', ' UNDEFINED_SYMBOL', ')'],
                      'VALIDATION_ERROR'),
+                    (['dir %s = {' % T, '  file a = <<EOF', '[assert]', 'EOF', '  dir b = {',
+                      '    file c = @[UNDEFINED_SYMBOL]@', '  }', '}'], 'VALIDATION_ERROR'),
+                    (['run % cat', '  -stdin <<EOF', '@[UNDEFINED_SYMBOL]@', '[act]', 'EOF'], 'VALIDATION_ERROR'),
                 ])
         desc = None
         if desc_ok and self.draw(_int_below(3)) == 0:
@@ -686,7 +690,7 @@ def cli_permutation_strategy(tier):
 SMALL_ALPHABET = [
     '[setup]', '[assert]', '  [act] ', '[nophase]', '[setup', '# c', '', 'dir T', 'exit-code == 0',
     'file T = <<EOF', 'EOF', '`d`', '`d` dir T', 'act line', '\\[x]', 'including inc.xly', 'including t.case',
-    'dir', 'exit-code (',
+    'dir', 'exit-code (', 'dir T = {', '}',
 ]
 _SMALL_INC = ['dir in-inc\n[assert]\nexit-code == 1\n[act]\nact in inc\n', '[cleanup]\n`d`\n\ndir in-inc']
 
@@ -698,6 +702,8 @@ def enumerate_small(tier):
     """every document = prefix + sequence over SMALL_ALPHABET up to the length bound, with and without final
     newline for the longest ones; `including inc.xly` refers to one of two fixed included files"""
     max_len = 3 if tier == 'quick' else 4
+    for text in ('', ' ', '\n\n', '[setup]', '#', 'including inc.xly'):
+        yield {'files': {ROOT: text, 'inc.xly': ''}}  # (degenerate files: empty, no final newline)
     for prefix in _SMALL_PREFIXES:
         for n in range(0, max_len + 1):
             for combo in itertools.product(range(len(SMALL_ALPHABET)), repeat=n):
